@@ -397,6 +397,37 @@ def gen_record(loader, check, replay_on=True):
             check.ob("check_for_bundle_usage#decl: body is wrapped in braces and kept whole", pi, pc, z3.And(z3.PrefixOf(sv("{\n"), rt), z3.SuffixOf(sv("\n}"), rt), z3.Contains(rt, CODE)))
 
 
+def gen_record_ground(loader, check, replay_on=True):
+    """ground witness classes for the companion record (deterministic, replayable)"""
+    Cm = loader.load("rzilcompiler.Compiler")
+    RI = Cm.globals["RZILInstruction"]
+    SubR = irkit.C(loader, "SubRoutine")
+    codes = {"hi only": "\nconst HexOp *Rs_op = ISA2REG(hi, 's', false);\nreturn x;", "pkt only": "\nRzILOpPure *Rs = READ_REG(pkt, Rs_op, false);\nreturn x;",
+             "both": "\nconst HexOp *Rs_op = ISA2REG(hi, 's', false);\nRzILOpPure *Rs = READ_REG(pkt, Rs_op, false);\nreturn x;",
+             "neither": "\nRzILOpEffect *a = SETL(\"this\", VARL(\"pktx\"));\nreturn a;", "hi as last argument": "\nRzILOpEffect *c = hex_fn(bundle, hi);\nreturn c;"}
+    for lab, code in codes.items():
+        mh = bool(re.search(r"[^A-Za-z0-9_]hi[^A-Za-z0-9_]", code))
+        mp = bool(re.search(r"[^A-Za-z0-9_]pkt[^A-Za-z0-9_]", code))
+        check.instances_declared += 1
+        ex = explore(loader, lambda it: None, lambda it, st, code=code: (it.call(RI, ["A2_x", [code], [["M"]], ["t"]], {}),
+                                                                         it.call(it.getattr_(Obj(SubR), "check_for_bundle_usage"), [code], {})))
+        check.absorb(ex, f"record ground {lab}")
+        if ex.paths:
+            check.instances_generated += 1
+        for p in ex.paths:
+            inst = f"ground text: {lab}"
+            check.ob("RZILInstruction#total", inst, p.ctx.pc, p.outcome == "return", detail="" if p.outcome == "return" else f"raises {p.value!r}")
+            if p.outcome != "return":
+                continue
+            ri, body = p.value
+            rp1 = ("c11.flags", lambda mdl, code=code: {"code": code}) if replay_on else None
+            rp2 = ("c11.bundle", lambda mdl, code=code: {"code": code}) if replay_on else None
+            check.ob("RZILInstruction#flags: ground mention => flag", inst, p.ctx.pc, (not mh or bool(ri.fields["needs_hi"][0])) and (not mp or bool(ri.fields["needs_pkt"][0])), replay=rp1,
+                     detail=f"needs_hi={ri.fields['needs_hi'][0]!r} needs_pkt={ri.fields['needs_pkt'][0]!r}")
+            okb = (not mh or "const HexInsn *hi = bundle->insn;\n" in body) and (not mp or "HexPkt *pkt = bundle->pkt;\n" in body) and body.startswith("{\n") and body.endswith("\n}") and code in body
+            check.ob("check_for_bundle_usage#flags: ground mention => declaration", inst, p.ctx.pc, okb, replay=rp2, detail=repr(body[:80]))
+
+
 def gen_names(loader, check, replay_on=True):
     """ground: getter names unique across the bundled instruction names; C identifiers of operands never clash (bounded)"""
     from rzilcompiler.Compiler import RZILInstruction
@@ -501,7 +532,7 @@ def gen_shared(loader, check, what, replay_on=True):
 
 
 def gen_task(loader, check, what, replay_on=True):
-    own = {"add_op": gen_add_op, "order": gen_order, "fbody": gen_fbody, "record": gen_record, "names": gen_names, "reg_decls": gen_reg_decls}
+    own = {"add_op": gen_add_op, "order": gen_order, "fbody": gen_fbody, "record": gen_record, "names": gen_names, "reg_decls": gen_reg_decls, "record_ground": gen_record_ground}
     if what in own:
         own[what](loader, check, replay_on)
     else:
@@ -510,12 +541,12 @@ def gen_task(loader, check, what, replay_on=True):
 
 def generate_reduced(loader, check):
     check.ob_filter = FILTER
-    for w in ("add_op", "order", "fbody", "record", "reg_decls", "catalog", "loops", "final"):
+    for w in ("add_op", "order", "fbody", "record", "record_ground", "reg_decls", "catalog", "loops", "final"):
         gen_task(loader, check, w, False)
 
 
 STRING_REFUTE_BOUND = 6
-MUTANT_REFUTE_MS = 30000
+MUTANT_REFUTE_MS = 4000
 
 
 def run(check: Check):
@@ -525,7 +556,7 @@ def run(check: Check):
     check.assume("A-NAMES is the only assumption left about add_op: user identifiers do not collide with internal base names")
     check.assume("code strings passed to RZILInstruction / SubRoutine have the shape fbody guarantees (start with newline or 'return', end with ';')")
     check.ob_filter = FILTER
-    tasks = [{"what": w} for w in ("add_op", "order", "fbody", "record", "names", "reg_decls", "catalog", "loops", "rendering", "final")]
+    tasks = [{"what": w} for w in ("add_op", "order", "fbody", "record", "record_ground", "names", "reg_decls", "catalog", "loops", "rendering", "final")]
     check.run_parallel("contracts.c11", "gen_task", tasks, workers=WORKERS, sink_attrs={"ob_filter": FILTER, "z3_timeout_ms": Z3_TIMEOUT_MS,
                                                                                         "cvc5_timeout_ms": CVC5_TIMEOUT_MS, "string_refute_bound": 6})
     run_mutants(check, MUTANTS, "contracts.c11", "generate_reduced")
